@@ -419,8 +419,9 @@ fn evaluate(c: &Case) -> (Vec<Fail>, Option<(Outcome, Reference)>) {
 //     "all settings valid, alpha == 0, outcome Err(Exceeded maximum number of iteration ...)"; anything else on such
 //     an input (hang, panic, another Err, Ok with a non-optimal w) is a failure;
 //   large scale (|y| at 1e8..1e12 x unit, alpha in its own range or following the scale): a hang or panic is a failure;
-//     Err / non-optimal Ok there is the finding `lasso-large-scale-err` IF KNOWN_FINDINGS.txt lists it, otherwise it is
-//     only counted (reported to the coordinator; the harness must not invent ids).
+//     Err(line search exhausted) / an Ok failing only near_optimal is the listed finding `lasso-large-scale-err` when the
+//     input really is in one of its two regimes (|y| >= 1e6 and: n*alpha >= 1e8, or |y - mean y|^2 >= 1e15); the same
+//     outcome outside the regimes, any other Err, a wrong intercept etc. is a failure.
 // ------------------------------------------------------------------------------------------
 const LS_ERR: &str = "Exceeded maximum number of iteration for interior point optimizer";
 fn finding_listed(id: &str) -> bool {
@@ -431,6 +432,21 @@ fn finding_listed(id: &str) -> bool {
         }
     }
     false
+}
+/// the predicate of `lasso-large-scale-err` as listed: targets of magnitude >= 1e6 and (n*alpha >= 1e8 or |y - mean y|^2 >= 1e15)
+fn large_scale_regime(c: &Case, rf: &Reference) -> Option<&'static str> {
+    let ymax = c.y.iter().fold(0.0f64, |a, b| a.max(b.abs()));
+    let yc2: f64 = rf.yc.iter().map(|v| v * v).sum();
+    if !(ymax >= 1e6) {
+        return None;
+    }
+    if c.x.len() as f64 * c.alpha >= 1e8 {
+        Some("n*alpha >= 1e8")
+    } else if yc2 >= 1e15 {
+        Some("|y - mean y|^2 >= 1e15")
+    } else {
+        None
+    }
 }
 /// returns the failures; `known` receives (id, what) when exactly the finding's predicate held
 fn evaluate_returns(c: &Case, family: &str, out: &mut Out) -> Vec<Fail> {
@@ -444,13 +460,10 @@ fn evaluate_returns(c: &Case, family: &str, out: &mut Out) -> Vec<Fail> {
             if family == "alpha-zero" && c.alpha == 0.0 && e.contains(LS_ERR) {
                 out.known("lasso-alpha-zero-err", &format!("{}::fit with alpha = 0 returns Err({})", if c.enet { "ElasticNet" } else { "Lasso" }, LS_ERR));
                 out.count("known:lasso-alpha-zero-err");
-            } else if family == "large-scale" && e.contains(LS_ERR) {
-                if finding_listed("lasso-large-scale-err") {
-                    out.known("lasso-large-scale-err", &format!("fit at large scale (n*alpha >= 1e7 or |y - mean y|^2 >= 1e13) returns Err({})", LS_ERR));
-                    out.count("known:lasso-large-scale-err:Err");
-                } else {
-                    out.count("observed:large-scale:Err(line search exhausted) [reported, no id listed]");
-                }
+            } else if family == "large-scale" && e.contains(LS_ERR) && large_scale_regime(c, &rf).is_some() && finding_listed("lasso-large-scale-err") {
+                let regime = large_scale_regime(c, &rf).unwrap();
+                out.known("lasso-large-scale-err", &format!("fit on large targets (|y| >= 1e6 and n*alpha >= 1e8 or |y - mean y|^2 >= 1e15) returns Err({}) or an Ok that is not near-optimal", LS_ERR));
+                out.count(&format!("known:lasso-large-scale-err:Err:{}", regime));
             } else {
                 fails.push(Fail { oracle: "valid_input_fits", what: format!("{}: fit returned Err on a valid input ({}): {}", who, family, e) });
             }
@@ -458,13 +471,10 @@ fn evaluate_returns(c: &Case, family: &str, out: &mut Out) -> Vec<Fail> {
         Outcome::Ok(f, _) => {
             let mut sub = vec![];
             check_fit(c, &c.y, &f, &rf, &mut sub);
-            if family == "large-scale" && sub.iter().all(|s| s.oracle == "near_optimal") && !sub.is_empty() {
-                if finding_listed("lasso-large-scale-err") {
-                    out.known("lasso-large-scale-err", "fit at large scale returns Ok with coefficients that are not near-optimal");
-                    out.count("known:lasso-large-scale-err:Ok-not-optimal");
-                } else {
-                    out.count("observed:large-scale:Ok-not-near-optimal [reported, no id listed]");
-                }
+            if family == "large-scale" && sub.iter().all(|s| s.oracle == "near_optimal") && !sub.is_empty() && large_scale_regime(c, &rf).is_some() && finding_listed("lasso-large-scale-err") {
+                let regime = large_scale_regime(c, &rf).unwrap();
+                out.known("lasso-large-scale-err", &format!("fit on large targets (|y| >= 1e6 and n*alpha >= 1e8 or |y - mean y|^2 >= 1e15) returns Err({}) or an Ok that is not near-optimal", LS_ERR));
+                out.count(&format!("known:lasso-large-scale-err:Ok-not-near-optimal:{}", regime));
             } else {
                 if sub.is_empty() {
                     out.count(&format!("search:{}:Ok-near-optimal", family));
@@ -689,11 +699,16 @@ fn corr_case(out: &mut Out, c: &Case, group: &str) {
         if shrink < 1.0 - 1e-7 {
             // X^T nu is rounding noise compared with its terms (penalty far below the property's range: alpha < 1e-3):
             // the float run of the validator cannot certify anything there
-            out.count(if c.alpha >= 1e-3 { "corr-cert:shrunk-by>1e-7" } else { "corr-cert:not-attempted(alpha<1e-3,cancellation)" });
-            if c.alpha < 1e-3 {
-                cert = false;
+            if c.alpha >= 1e-3 {
+                out.count("corr-cert:shrunk-by>1e-7");
             }
         }
+    }
+    if cert && c.alpha < 1e-3 {
+        // below the property's penalty range the optimum can be rounding noise relative to |yc|^2 (near-interpolation):
+        // the validator's exact float run has no absolute slack, so no certificate is attempted there (counted)
+        cert = false;
+        out.count("corr-cert:not-attempted(alpha<1e-3)");
     }
     let ctol = C_TOL * c.tol + 4.0 * (1.0 - shrink);
     let run = coq_option(runs.first().map(coq_run));
@@ -1002,7 +1017,7 @@ fn main() {
         let fails = evaluate_returns(&c, "alpha-zero", &mut out);
         record(&mut out, &c, fails, "alpha-zero");
     }
-    // targets at scale 1e8 .. 1e12 x unit, alpha in the quantifier's own range or following the scale, both normalisations
+    // targets at scale 1e6 .. 1e12 x unit, alpha in the quantifier's own range or following the scale, both normalisations
     for i in 0..(if a.thorough { 1500 } else { 200 }) {
         if timeouts() >= MAX_TIMEOUTS {
             out.count("search:skipped-after-8-timeouts");
@@ -1010,7 +1025,7 @@ fn main() {
         }
         let enet = i % 2 == 1;
         let mut c = gen_case(&mut rng, 30, 5, enet, false);
-        let f = 10f64.powf(rng.uniform(8.0, 12.0));
+        let f = 10f64.powf(rng.uniform(6.0, 12.0));
         for yi in c.y.iter_mut() {
             *yi *= f;
         }
